@@ -172,13 +172,18 @@ class C17(Check):
                 cnt["detector_calls"] = cnt.get("detector_calls", 0) + 1
                 cnt[f"calls_{r['cls']}"] = cnt.get(f"calls_{r['cls']}", 0) + 1
                 where = f"step {k} target {tid} {r['cls']}(threshold={r['threshold']}, window={r['window']}, delta={r['delta']}) history (NIS, dim)={[(round(n, 4), d) for n, d in ref.hist[-6:]]}"
-                if r["metric"] is None or not np.isclose(r["metric"], stat, rtol=1e-9, atol=1e-12):
+                # the quadratic form inverts S: allow the rounding its conditioning amplifies
+                rtol = max(1e-9, 100 * 2.3e-16 * float(np.linalg.cond(r["innov_cvr"]))) * max(1, len(ref.hist) if r["cls"] != "StandardNis" else 1)
+                if rtol > 1e-4:
+                    res["indeterminate"] += 1
+                    continue
+                if r["metric"] is None or not np.isclose(r["metric"], stat, rtol=rtol, atol=1e-12):
                     viol.append({"clause": "metric-not-documented-statistic", "key": r["cls"], "detail": f"{where}: detector reports metric {r['metric']!r}, documented statistic is {stat!r}"})
                     continue
                 verdicts = set()
                 for dof in dofs:
                     bound = float(chi2.isf(r["threshold"], dof))
-                    if abs(stat - bound) <= 1e-9 * max(1.0, abs(bound)):
+                    if abs(stat - bound) <= 10 * rtol * max(1.0, abs(bound)):
                         verdicts.add(None)
                     else:
                         verdicts.add(stat >= bound)
